@@ -18,7 +18,10 @@ BodyMethods == {"POST", "PUT", "DELETE", "PURGE"}
 \* refused: the request names a denied host and is answered by the proxy itself (403) - its body is never read by any
 \* round trip, yet it must be consumed so that the next request on the connection is the client's next request
 Reqs == { r \in [m : Methods, ver : {10, 11}, copt : {"none", "close", "ka"}, body : {"none", "cl", "chunked"},
-                 sz : 1..3, ae : {"absent", "gzip", "br"}, slow : BOOLEAN, refused : BOOLEAN] :
+                 sz : 1..3, ae : {"absent", "gzip", "br"}, slow : BOOLEAN, refused : BOOLEAN,
+                 crlf : BOOLEAN] :        \* the body is followed by an empty line (CRLF) that is not part of it: old clients do
+                                          \* that after a POST, and a server ignores it (RFC 9112 2.2)
+            /\ (r.crlf => r.m = "POST" /\ r.body = "cl" /\ ~r.slow /\ ~r.refused)
             /\ (r.slow => r.body # "none" /\ r.sz > 1 /\ ~r.refused)
             /\ (r.refused => r.body # "none" /\ r.m # "HEAD")
             /\ (r.body # "none" => r.m \in BodyMethods)
@@ -78,7 +81,7 @@ Wire(r, u, closing) ==
 VARIABLES k, phase, req, wire, alive, closing, nRead, nWrote, inflight
 vars == <<k, phase, req, wire, alive, closing, nRead, nWrote, inflight>>
 
-NoReq == [m |-> "GET", ver |-> 11, copt |-> "none", body |-> "none", sz |-> 1, ae |-> "absent", slow |-> FALSE, refused |-> FALSE]
+NoReq == [m |-> "GET", ver |-> 11, copt |-> "none", body |-> "none", sz |-> 1, ae |-> "absent", slow |-> FALSE, refused |-> FALSE, crlf |-> FALSE]
 Init == /\ k = 0 /\ phase = "idle" /\ req = NoReq /\ wire = <<>> /\ alive = TRUE /\ closing = FALSE
         /\ nRead = 0 /\ nWrote = 0 /\ inflight = 0
 
@@ -119,12 +122,17 @@ ExactlyOnce           == ~closing => (nRead = nWrote + inflight /\ inflight = (I
 Exch == Reqs \X Ups
 \* a random subset hardly ever meets a particular kind of stream: every event-stream shape (line ending / comment /
 \* media type parameter x framing x origin version) is always run on its own, asked for by a plain GET of either version
-PlainGet(v) == [m |-> "GET", ver |-> v, copt |-> "none", body |-> "none", sz |-> 1, ae |-> "absent", slow |-> FALSE, refused |-> FALSE]
+PlainGet(v) == [m |-> "GET", ver |-> v, copt |-> "none", body |-> "none", sz |-> 1, ae |-> "absent", slow |-> FALSE, refused |-> FALSE, crlf |-> FALSE]
+\* ... and a POST whose body is followed by an empty line, then a plain request on the same connection
+CrlfBase == { <<[PlainGet(11) EXCEPT !.m = "POST", !.body = "cl", !.crlf = TRUE], u>> : u \in {x \in Ups : x.st = 200 /\ x.fr = "cl" /\ x.sz = 1 /\ x.ver = 11 /\ ~x.gz /\ ~x.tr
+                                                                                              /\ ~x.hop /\ ~x.cookies /\ ~x.early /\ ~x.pragma /\ ~x.sse} }
+PlainOK == CHOOSE u \in Ups : u.st = 200 /\ u.fr = "cl" /\ u.sz = 1 /\ u.ver = 11 /\ ~u.gz /\ ~u.tr /\ ~u.hop /\ ~u.cookies /\ ~u.early /\ ~u.pragma /\ ~u.sse
 StreamBase == { <<PlainGet(v), u>> : v \in {10, 11},
                 u \in {x \in Ups : x.sse /\ x.st = 200 /\ x.sz = 2 /\ ~x.gz /\ ~x.tr /\ ~x.hop /\ ~x.cookies /\ ~x.early /\ ~x.pragma} }
 \* the same for the header set as a whole: a reply that carries Pragma, asked for by GET and by HEAD
 PragmaBase == { <<[PlainGet(11) EXCEPT !.m = m], u>> : m \in {"GET", "HEAD"}, u \in {x \in Ups : x.pragma} }
 GenSeqs == RandomSubset(SeqSample, [1..MaxEx -> Exch]) \cup { [i \in 1..1 |-> e] : e \in StreamBase \cup PragmaBase }
+           \cup { <<e, <<PlainGet(11), PlainOK>>>> : e \in CrlfBase }
 \* an exchange happens only if every earlier one left the connection open
 Expected(s) == [i \in 1..Len(s) |-> Wire(s[i][1], s[i][2], FALSE)]
 \* A response after which the proxy closes the client's connection (Wire(...).close: the origin said close, delimited the body
